@@ -452,7 +452,10 @@ impl PrettyPrinter {
 
     pub fn format_aggregate(&mut self, aggregate: &data::Aggregate) -> String {
         if aggregate.data.is_empty() {
-            return "No data\n".to_string();
+            // like every other line of the table, never wider than the terminal
+            let mut line: String = "No data".chars().take(self.max_width() as usize).collect();
+            line.push('\n');
+            return line;
         }
 
         aggregate.data.iter().for_each(|row| {
